@@ -232,6 +232,20 @@ func check(c tcase) *mc.Failure {
 			if m, ok := maskOf(rg); !ok || m != listMask(c.Args) {
 				return mc.Failf(0, "Range(%v) = %v", c.Args, rg)
 			}
+			// a single-use iterator (it drains a queue): Range may traverse it once only
+			queue := append([]int(nil), c.Args...)
+			rg1 := mapset.Range(func(yield func(int) bool) {
+				for len(queue) > 0 {
+					v := queue[0]
+					queue = queue[1:]
+					if !yield(v) {
+						return
+					}
+				}
+			})
+			if m, ok := maskOf(rg1); rg1 == nil || !ok || m != listMask(c.Args) {
+				return mc.Failf(0, "Range over a single-use iterator yielding %v = %v", c.Args, rg1)
+			}
 		case "slice":
 			o, om := operand(c.Ops[0])
 			sl := o.Slice()
@@ -428,6 +442,7 @@ func (m *minst) Key() string { return fmt.Sprintf("%v/%b", m.s == nil, m.ref) }
 func (m *minst) Apply(o mop, check bool) *mc.Failure {
 	var ret mapset.Set[int]
 	wasNil := m.s == nil
+	other := m.s // a second handle on the same set: a Set is a map, copies share its contents
 	if check && len(m.s) == 0 {
 		atomic.AddInt64(&fromEmpty, 1)
 	}
@@ -474,6 +489,12 @@ func (m *minst) Apply(o mop, check bool) *mc.Failure {
 	}
 	if len(ret) != len(m.s) || (ret == nil) != (m.s == nil) {
 		return mc.Failf(0, "%v did not return the receiver set", o)
+	}
+	if !wasNil {
+		// a mutation through one handle of a non-nil set is seen through every other
+		if mo, ok := maskOf(other); !ok || mo != m.ref || len(other) != len(m.s) {
+			return mc.Failf(0, "after %v on a non-nil set (%d members before) a copy of the Set value taken before the call holds %v, the receiver %v: the call rebound the receiver instead of changing the set", o, len(other), other, m.s)
+		}
 	}
 	if mm, ok := maskOf(m.s); !ok || mm != m.ref || m.s.Len() != len(m.s) || m.s.IsEmpty() != (m.ref == 0) {
 		return mc.Failf(0, "after %v the set is %v, want mask %b", o, m.s, m.ref)
